@@ -109,6 +109,7 @@ type Rec struct {
 	Pre        *HookObs   `json:"pre,omitempty"`
 	Post       *HookObs   `json:"post,omitempty"`
 	SliceAlias []string   `json:"slice_alias,omitempty"`
+	TreeAlias  []string   `json:"tree_alias,omitempty"`
 	SliceObs   int        `json:"slice_obs,omitempty"`
 	NilKept    int        `json:"nil_kept,omitempty"`
 	Judged     bool       `json:"judged"`
